@@ -529,4 +529,5 @@ MUTATIONS += [
     dict(id="r14w-from-numpy-as-given", file="cirkit/backend/torch/initializers.py", old="    t = torch.from_numpy(np.ascontiguousarray(array))", new="    t = torch.from_numpy(array)", expect={"C17": ["R14w:cirkit.backend.torch.initializers.copy_from_ndarray_:contiguous"]}),
     dict(id="q-r14w-from-numpy-copy", quiet=True, file="cirkit/backend/torch/initializers.py", old="    t = torch.from_numpy(np.ascontiguousarray(array))", new="    t = torch.from_numpy(array.copy())", expect={}),
     dict(id="r14w-default-dtype-detour", file="cirkit/backend/torch/initializers.py", old="    # The values are converted to the data type of the given tensor\n    return tensor.copy_(t)", new="    if t.is_floating_point():\n        t = t.to(torch.get_default_dtype())\n    return tensor.copy_(t)", expect={"C17": ["R14w:cirkit.backend.torch.initializers.copy_from_ndarray_:dtype"]}),
+    dict(id="r1e-torch-scaled-sigmoid-pickier", file=TNODES, old='        assert vmin < vmax, "Must provide vmin < vmax."', new='        assert 0 <= vmin < vmax, "Must provide 0 <= vmin < vmax."', expect={"C14": ["R1e:cirkit.backend.torch.parameters.nodes.TorchScaledSigmoidParameter"]}),
 ]
